@@ -18,6 +18,7 @@ THOROUGH_RUNS = 150000
 MAX_EXCLUDED_FRACTION = 0.25
 SHRINK_RUNS = 300
 SHRINK_S = 60
+FIDELITY_CASES = {'quick': 4, 'thorough': 24}   # real-pool executions replayed in the simulator
 RULE = ('one run = one masked-sift workload executed on a single plain worker and again under a seeded pool '
         'schedule; distinct = distinct tuple (entry point, frequency source, amplitude mode, nphases, start method, '
         'canonical job->worker partition and completion order of the first three mask batches, respawn positions); '
